@@ -99,6 +99,24 @@ def check(ctx):
         ob = ctx.add(Obligation(ctx.prop, name, 'native-eval', 'bounded', 'failed', seconds=secs, bound=bound, detail='crashed: rc=%s %s' % (rc, err[-500:])))
         ob.witness = dict(instance='(panic inside sort)', observed=err[-500:], via='public API', replay=['api', 'sortdocs', 'corpus'])
         ctx._record_violation(ob)
+    # API-level bounded check of the whole comparison chain of Element::cmp: triples of siblings with and without INDEX, item name,
+    # DEFINITION-REF and DEST, in all six orders
+    rc, out, err, secs = run([b, 'api', 'sortperm'], timeout=1800)
+    ctx.t('native-enum', secs)
+    line = result_line(out)
+    name = 'native/api-sort-sibling-permutations'
+    bound = 'all triples of siblings from three pools -- named ECUC-CONTAINER-VALUEs (name x DEFINITION-REF x INDEX), unnamed ECUC-NUMERICAL-PARAM-VALUEs (DEFINITION-REF x INDEX x VALUE), ECUC-REFERENCE-VALUEs (DEFINITION-REF x DEST x target) -- each loaded in all six orders (4873 triples, 29 238 sorts)'
+    if line.startswith('OK'):
+        ctx.add(Obligation(ctx.prop, name, 'native-eval', 'bounded', 'discharged', seconds=secs, bound=bound,
+                           detail='the sorted text does not depend on the order the siblings had before; sorting twice equals sorting once [%s]' % line))
+    elif line.startswith('FAIL'):
+        msg, _, dochex = line[5:].partition(' :: document ')
+        ob = ctx.add(Obligation(ctx.prop, name, 'native-eval', 'bounded', 'failed', seconds=secs, bound=bound, detail=msg))
+        ob.witness = dict(input_hex=dochex.strip(), input_text=bytes.fromhex(dochex.strip()).decode('utf-8', 'replace'), observed=msg, via='public API: load_buffer, AutosarModel::sort, serialize; the same three siblings in another order sort to a different text',
+                          replay=['api', 'sortperm1', dochex.strip()])
+        ctx._record_violation(ob)
+    else:
+        ctx.undecided.append('%s: no result (rc=%s) %s' % (name, rc, (out + err)[-300:]))
     # API-level bounded check: sorting keeps the children in the specification order of the file's version, for every element type
     rc, out, err, secs = run([b, 'api', 'sortorder', '200000', str(1 + ctx.seed), 'survey'], timeout=1800)
     ctx.t('native-enum', secs)
